@@ -12,7 +12,7 @@ from typing import Dict, List, Optional, Set
 
 from ..program import AnalysisError, FunctionInfo, fn_nodes, norm
 from ..cfg import cfg_of
-from .common import isinstance_excludes, len_vs_const, misguarded_member_stores, resolve_all, find_local, JWE_CONSUME, JWE_PRODUCE, can_reach_exit, const_value, entries, impls, is_const, scope_of, sites_calling, succ_by_label
+from .common import in_family, isinstance_excludes, len_vs_const, misguarded_member_stores, resolve_all, find_local, JWE_CONSUME, JWE_PRODUCE, can_reach_exit, const_value, entries, impls, is_const, scope_of, sites_calling, succ_by_label
 
 RFC7516_TOP = {"protected", "unprotected", "iv", "aad", "ciphertext", "tag"}
 RFC7516_RCP = {"header", "encrypted_key"}
@@ -561,7 +561,7 @@ def r04_12(ctx) -> None:
 HEADER_POSITIONS = ("protected", "unprotected", "header")
 
 
-def r04_14(ctx) -> None:
+def r04_14(ctx, family: Optional[str] = None) -> None:
     """R04.14  "the header members in their protected, shared-unprotected and per-recipient positions" come back as given: the library adds
     members to header objects (epk, p2s, kid ...) but never removes or clears one - no `del h[...]`, `.pop`, `.popitem`, `.clear` on an
     expression that denotes a header position (`<x>.protected`, `<x>.unprotected`, `<x>.header`, a `headers()` view is a copy)."""
@@ -578,6 +578,8 @@ def r04_14(ctx) -> None:
     stores = 0
     for fn in eng.prog.all_functions():
         if fn.module.short.startswith(("rfc7519", "rfc7517", "rfc7518.oct", "rfc7518.rsa", "rfc7518.ec", "rfc8037.okp", "_keys", "jwk")):
+            continue
+        if not in_family(fn, family):
             continue
         for node in fn_nodes(fn):
             hit = None
@@ -643,8 +645,8 @@ def run(ctx) -> None:
     ctx.guard(forwarding_discipline, "R04.11", ['plaintext', 'recipient', 'enc', 'tag', 'cek', 'aad', 'iv', 'ek', 'sender_key', 'protected', 'header'], 65, "jwe")  # arguments are handed on under their own name (generic routing rule, rules/common.py)
     ctx.guard(r04_12)
     from .common import octet_length_lint
-    ctx.guard(octet_length_lint, "R04.15")  # "every key of the required type, size and curve": P-521 coordinates are 66 octets
-    ctx.guard(r04_14)
+    ctx.guard(octet_length_lint, "R04.15", "jwe")  # "every key of the required type, size and curve": P-521 coordinates are 66 octets
+    ctx.guard(r04_14, "jwe")
     ctx.guard(r04_9)
     ctx.guard(r04_8)
     ctx.guard(r04_7)
